@@ -203,6 +203,13 @@ def _task(task):
         try:
             with case_alarm(60):
                 defn = load_doc(doc) if task["via"] == "xml" else build_objects(doc)
+                # "nested container references expanded in place": what a container nests IS the container the definition holds under that
+                # name (an edit made through the definition reaches every place the container is used)
+                for cname_, cont_ in defn.containers.items():
+                    for e_ in cont_.entry_list:
+                        if hasattr(e_, "entry_list") and defn.containers.get(e_.name) is not e_:
+                            t.violation({"kind": "nested-container-is-a-private-copy"}, {"spec": spec, "via": task["via"], "container": cname_, "nested": e_.name},
+                                        note="the container nested here is not the object registered under its name")
         except BaseException as e:  # noqa: BLE001
             t.violation({"kind": "load-failed", "exc": type(e).__name__, "via": task["via"]}, {"spec": spec, "via": task["via"]},
                         observed=str(e)[:300])
